@@ -92,7 +92,7 @@ func (r *RoutingTable) VerifAttach(live []discovery.Member, ring VerifRingHasher
 	r.config.Hasher = ring
 	r.log = lg
 	r.discovery = discovery.VerifNew(r.this, memberlist.VerifNew(nodes), r.config, lg)
-	r.consistent = consistent.New(cms, consistent.Config{Hasher: ring, PartitionCount: int(r.config.PartitionCount), ReplicationFactor: 2, Load: 4})
+	r.consistent = consistent.New(cms, consistent.Config{Hasher: ring, PartitionCount: int(r.config.PartitionCount), ReplicationFactor: 2, Load: 1.25}) // the default load factor
 	r.client = client
 	r.ctx = context.Background()
 	r.joined = make(chan struct{})
